@@ -122,6 +122,9 @@ IsEvent(e) == l <= Len(TraceLog) /\ TraceLog[l].e = e /\ l' = l + 1
 Frame(ev, newlive) ==
     /\ Chk("stray writes", 0, ev.stray)
     /\ Chk("invalid free / heap corruption", 0, ev.badfree)
+    \* whatever call releases a block that was object state (allocated by an earlier call) releases it
+    \* wiped -- a re-keying that swaps in a fresh context must not hand the old one back unwiped
+    /\ IF Has(ev, "nzo") THEN Chk("non-zero bytes in released object state", 0, ev.nzo) ELSE TRUE
     /\ Chk("live heap blocks", newlive, ev.lv)
 
 (* a call that is neither init nor cleanup leaves the set of owned blocks as it was *)
